@@ -1,12 +1,13 @@
 #!/bin/bash
-# apply a (supposedly property-preserving) patch to the scratch worktree /tmp/repo2 and run whole quick checks on it
-# usage: tools/try_benign.sh <patch> <check-id>...
-P=$1; shift
-cd /tmp/repo2 && git checkout -q -- . && git apply "$P" || { echo "APPLY FAILED"; exit 3; }
+# apply a (supposedly property-preserving) patch to a scratch worktree and run whole quick checks on it
+# usage: tools/try_benign.sh <worktree> <patch> <jobs> <check-id>...
+WT=$1; P=$2; J=$3; shift 3
+cd $WT && git checkout -q -- . && git apply "$P" || { echo "APPLY FAILED $P"; exit 3; }
 cd /verif
+tag=$(basename $WT)_$(basename $(dirname $P))
 for id in "$@"; do
-  timeout 3000 bin/vsym check $id --tier quick -repo /tmp/repo2 -no-evidence -j 16 > /tmp/ben/check_$id.log 2>&1; rc=$?
-  echo "== $id exit=$rc $(grep -c VIOLATION /tmp/ben/check_$id.log) violation lines"
-  grep "VIOLATION\|KNOWN-FINDING\|INCONCLUSIVE\|vacu" /tmp/ben/check_$id.log | cut -c1-300 | head -5
+  timeout 3600 bin/vsym check $id --tier quick -repo $WT -no-evidence -j $J > /tmp/ben/check_${tag}_$id.log 2>&1; rc=$?
+  echo "== $tag $id exit=$rc violations=$(grep -c VIOLATION /tmp/ben/check_${tag}_$id.log)"
+  grep "VIOLATION\|KNOWN-FINDING\|INCONCLUSIVE\|vacu" /tmp/ben/check_${tag}_$id.log | cut -c1-300 | head -4
 done
-git -C /tmp/repo2 checkout -q -- .
+git -C $WT checkout -q -- .
